@@ -159,14 +159,15 @@ func (l *limiter) Use(amount int) <-chan error {
 		done <- errs.Newf("Amount (%d) must be positive", amount)
 		return done
 	}
-	if amount == 0 {
-		done <- nil
-		return done
-	}
 	l.controller.lock.Lock()
 	if l.closed {
 		l.controller.lock.Unlock()
 		done <- errs.New("Limiter is closed")
+		return done
+	}
+	if amount == 0 {
+		l.controller.lock.Unlock()
+		done <- nil
 		return done
 	}
 	if amount > l.capacity {
